@@ -416,18 +416,11 @@ def r3_exit_status_tables(w):
                             and st['rv']['adt'] in ('typstyle::fmt::FormatStatus', 'typstyle::fmt::FormatResult'):
                         changed_blocks.add(bi)
             doms = set(v.dom().get(sw, ())) | {sw}
-            seen, work, escaped = set(), [tgt], None
-            while work:
-                x = work.pop()
-                if x in seen or x in changed_blocks:
-                    continue
-                seen.add(x)
-                if fb.blocks[x]['term']['t'] == 'return' or (x in doms and x != tgt):
-                    escaped = x
-                    break
-                for y in fb.succs(x):
-                    if not fb.blocks[y]['cleanup']:
-                        work.append(y)
+            import cfg as _cfg
+            ends = lambda x: fb.blocks[x]['term']['t'] == 'return' or (x in doms and x != tgt)
+            reached = _cfg.walk_known(fb, [tgt], stop=ends, skip_blocks=changed_blocks)
+            esc = sorted(x for x in reached if ends(x))
+            escaped = esc[0] if esc else None
             cons = {'fn': fb.short, 'differs_test': how, 'bb': sw}
             if escaped is None:
                 r.ok(cons, 'every path from the differs edge constructs Changed before the iteration / function ends')
